@@ -10,7 +10,7 @@ from collections import namedtuple
 from typing import Any
 
 import redun
-from redun import task
+from redun import get_context, task
 from redun.functools import const, map_, seq
 from redun.scheduler import apply_tags, catch, catch_all, cond, fork_thread, join_thread, subrun
 
@@ -301,6 +301,43 @@ def s_fail_after(n, kind):
     if n <= 0:
         return s_raiser(kind, "sdeep")
     return s_fail_after(n - 1, kind)
+
+
+# ------------------------------------------------------------------ tasks reading the context
+@task()
+def ctx_scale(x, k=get_context("k", 1), m=get_context("m", 1)):
+    return x * k * m
+
+
+@task()
+def ctx_offset(x, j=get_context("j", 0)):
+    return x + j
+
+
+@task()
+def ctx_flow(x):
+    return [ctx_offset(ctx_scale(x)), ctx_scale(x + 1)]
+
+
+@task()
+def ctx_body(x):
+    return [x, get_context("k", -1), get_context("q", None)]
+
+
+@task()
+def ctx_inner_override(x):
+    return [ctx_scale.update_context(k=9)(x), ctx_scale(x)]
+
+
+# callers used by the C38 check: evaluate a quoted sub-workflow directly / through subrun from inside a job
+@task()
+def direct_of(qe):
+    return qe.eval()
+
+
+@task()
+def sub_of(qe, new_execution):
+    return subrun(qe.eval(), executor="default", new_execution=new_execution)
 
 
 # ------------------------------------------------------------------ async tasks (free-running modes only)
